@@ -127,13 +127,97 @@ def getE (s : LeafE) : LeafE × Res :=
     ({ s with l := { s.l with idx := idx }, bad := if s.sticky then s.bad else s.bad.erase idx.toNat }, .err)
   else ({ s with l := s.l.get.1 }, Res.ofOption s.l.get.2)
 
+/-- `Source.get` of a `LeafE` is the read of the same in-memory leaf *as if every record could be read* (the base model's
+leaf, `bad` ignored): the proved model speaks about what the partitions hold, `getE` about what the reader manages to read.
+When `getE` does not fail the two agree (`Proofs/MixerErrRun.lean: instLawfulLeafE`). -/
 instance : SourceE LeafE where
-  get s := ((getE s).1, match (getE s).2 with | .ok e => some e | _ => none)
+  get s := ({ s with l := s.l.get.1 }, s.l.get.2)
   next s := { s with l := s.l.next }
   release s := s
   setBackward bk s := { s with l := s.l.setBackward bk }
   getE := getE
 
 end LeafE
+
+/-! ## the callers of the merged cursor (`pkg/cursor/cursor.go: Offset, iterateToPos`; the read loop of
+`pkg/backend/querier.go: Query` and `api/rpc/querier.go: query`) over the error model -/
+
+namespace It
+variable {σ : Type} [SourceE σ]
+
+/-- the read loop of `Querier.Query` (no waiting): `for limit > 0 && err == nil { e, tags, err = cur.Get(); if err == nil
+{ emit; limit--; cur.Next() } }`. Answer: the cursor, the events emitted, and whether the loop ended with an error that is not
+`io.EOF` (then the query answers the error and NO page: regenerated facts `backendQueryFailsOnError`, `rpcQueryFailsOnError`). -/
+def pageE : Nat → It σ → It σ × List Ev × Bool
+  | 0, t => (t, [], false)
+  | n+1, t =>
+    match t.getE with
+    | (t', .ok e) => let r := pageE n t'.nextE; (r.1, e :: r.2.1, r.2.2)
+    | (t', .eof) => (t', [], false)
+    | (t', .err) => (t', [], true)
+
+end It
+
+/-- `CurrentPos` of a leaf iterator (`records.IteratorPos`): for a journal iterator the chunk id and the index in the chunk.
+Chunk ids are unique over all journals, so positions of different journals are different values: the model's position of an
+in-memory leaf is (its partition, its index). -/
+class SourcePos (σ : Type) where
+  pos : σ → Int × Int
+
+instance : SourcePos LeafE := ⟨fun s => (s.l.tags, s.l.idx)⟩
+instance : SourcePos Leaf := ⟨fun l => (l.tags, l.idx)⟩
+
+namespace It
+variable {σ : Type} [SourceE σ] [SourcePos σ]
+
+/-- `Mixer.CurrentPos`: the selected source's position, `IteratorPosUnknown` (`none`) when nothing is selected.
+(As in the code the answer does not say WHICH source it is a position of.) -/
+def curPos : It σ → Option (Int × Int)
+  | .leaf s => some (SourcePos.pos s)
+  | .mix m a b => if m.st = 1 then a.curPos else if m.st = 2 then b.curPos else none
+
+/-- the loop of `iterateToPos`: `Get`; an error (also `io.EOF`) ends it; stop when `CurrentPos() == pos`; else `Next` -/
+def iterateLoopE (pos : Option (Int × Int)) : Nat → It σ → It σ
+  | 0, t => t
+  | f+1, t =>
+    match t.getE with
+    | (t', .ok _) => if t'.curPos == pos then t' else iterateLoopE pos f t'.nextE
+    | (t', _) => t'
+
+/-- `crsr.iterateToPos`: nothing for a single journal or an unknown position (`multi` = `len(cur.jDescs) > 1`) -/
+def iterateToPosE (fuel : Nat) (multi : Bool) (pos : Option (Int × Int)) (t : It σ) : It σ :=
+  if !multi || pos.isNone then t else iterateLoopE pos fuel t
+
+/-- `for offs > 0 { cur.Next(); offs--; _, _, err := cur.Get(); if err != nil { pos = unknown; break }; pos = CurrentPos() }` -/
+def offsetStepsE : Nat → It σ → Option (Int × Int) → It σ × Option (Int × Int)
+  | 0, t, pos => (t, pos)
+  | k+1, t, _ =>
+    match t.nextE.getE with
+    | (t2, .ok _) => offsetStepsE k t2 t2.curPos
+    | (t2, _) => (t2, none)
+
+/-- `crsr.Offset`, statement by statement: every error a `Get` answers inside it is dropped -/
+def offsetE (fuel : Nat) (multi : Bool) (offs : Int) (t : It σ) : It σ :=
+  if offs = 0 then t else
+  if offs < 0 then
+    let n := offs.natAbs
+    let r := t.getE
+    let pos := r.1.curPos
+    let t1 := r.1.setBackward true
+    let x : It σ × Option (Int × Int) × Nat :=
+      match r.2 with
+      | .eof => let g := t1.getE; (g.1, g.1.curPos, n - 1)
+      | _ => (iterateToPosE fuel multi pos t1, pos, n)
+    let y := offsetStepsE x.2.2 x.1 x.2.1
+    iterateToPosE fuel multi y.2 (y.1.setBackward false)
+  else
+    (offsetStepsE offs.natAbs t.getE.1 none).1
+
+/-- `Querier.Query` after the cursor is there: `Offset`, then the read loop; `none` = the query fails -/
+def queryE (fuel : Nat) (multi : Bool) (offs : Int) (lim : Nat) (t : It σ) : Option (List Ev) :=
+  let r := pageE lim (offsetE fuel multi offs t)
+  if r.2.2 then none else some r.2.1
+
+end It
 
 end Logrange.Mixer
